@@ -177,7 +177,11 @@ class Geo:
 _cache = {}
 
 
+ALIAS = {'CircleGuarded': 'Circle'}      # same geometry; the real object's callable refuses parameters outside [0, L]
+
+
 def geo(name):
+    name = ALIAS.get(name, name) if isinstance(name, str) else name
     key = name if isinstance(name, str) else repr(name)
     if key not in _cache:
         _cache[key] = Geo(name)
